@@ -27,7 +27,7 @@ Catalogue == <<
    NegPolygon(FacePoly),                                         \* the same face, opposite orientation: only the arrow differs
    Polygon("pentObl", 1),
    Cube, Octa, Pyr, Tet,
-   [k |-> "Arrow", c |-> Centroid(Range(CubeFace.cyc)), n |-> CubeFace.n, len |-> 2],   \* the arrow the bottom face gets at normal length 2
+   [k |-> "Arrow", c |-> Centroid(Range(CubeFace.cyc)), n |-> CubeFace.n, len |-> 2, of |-> CubeFace.cyc],   \* the arrow the bottom face gets at normal length 2
    MkLine(LP(<<0, 0, 0>>), <<1, 0, 0>>), MkPlane(LP(<<0, 0, 0>>), <<0, 0, 1>>), MkHalfLine(LP(<<0, 0, 0>>), <<1, 1, 0>>) >>   \* rejected
 
 VARIABLES steps          \* the scene sizes after every call (history variable, travels with hist)
